@@ -22,10 +22,12 @@ def main():
     import replay_parser
     import replay_unpack
     origin = {'replay_unpack': replay_unpack.__file__, 'replay_parser': replay_parser.__file__}
-    for path in files:
-        rec = {'file': path}
+    for item in files:
+        # an item is either a path (global mode) or '<mode>=<path>'
+        m, path = (item.split('=', 1) if ('=' in item and item.split('=', 1)[0] in ('strict', 'lenient')) else (mode, item))
+        rec = {'file': path, 'mode': m}
         try:
-            info = replay_parser.ReplayParser(path, strict=(mode == 'strict')).get_info()
+            info = replay_parser.ReplayParser(path, strict=(m == 'strict')).get_info()
             txt = json.dumps(info, cls=replay_parser.DefaultEncoder, sort_keys=True, ensure_ascii=False)
             rec['digest'] = hashlib.sha1(txt.encode('utf-8')).hexdigest()
             rec['hidden'] = info.get('hidden') is not None
@@ -33,6 +35,12 @@ def main():
         except Exception as e:
             rec['digest'] = None
             rec['exception'] = '%s: %s' % (type(e).__name__, str(e)[:200])
+        try:
+            from replay_unpack.core.entity import Entity
+            rec['registry'] = sorted((k, len(v)) for t in (Entity._methods_subscriptions, Entity._properties_subscriptions,
+                                                          Entity._nested_properties_subscription) for k, v in t.items())
+        except Exception:
+            rec['registry'] = None
         sys.stdout.write(json.dumps(rec) + '\n')
     if forbidden != '-':
         leaked = sorted(set(getattr(m, '__file__', None) or '' for m in list(sys.modules.values())
